@@ -17,7 +17,7 @@ from . import vertices_check as VC
 
 DICT = "case/system/blockMeshDict"
 SELFTEST_ARG = {"pid": "C12", "faults": "mixed", "tier": "quick"}
-TIERS = {"quick": (2400, "mixed", 40), "thorough": (30000, "enumerate", 1500)}
+TIERS = {"quick": (2400, "mixed", 100), "thorough": (30000, "enumerate", 1500)}
 NAMES = ["inlet", "outlet", "walls", "sym"]
 KINDS = ["wall", "patch", "symmetry", "empty"]
 
